@@ -200,3 +200,13 @@ package proto
 //@   ensures t == "Int256" {reports-Int256}
 //@ contract (c ColUInt256) Type() (t) props(C19)
 //@   ensures t == "UInt256" {reports-UInt256}
+
+//@ -- Map(K, V): the key column is inferred from the text before the comma, the value column from
+//@ -- the text after it (each trimmed) - not from each other's
+//@ contract (c *ColMap) Infer(t) (err) props(C19)
+//@   requires c != nil && c.Keys != nil && c.Values != nil
+//@   modifies all(c.Keys), all(c.Values)
+//@ callsite Inferable.Infer#1
+//@   assert arrayof(arg1) == trimArr(arrayof(keytype), len(keytype)) && len(arg1) == trimLen(arrayof(keytype), len(keytype)) {key-column-inferred-from-the-key-type}
+//@ callsite Inferable.Infer#2
+//@   assert arrayof(arg1) == trimArr(arrayof(valtype), len(valtype)) && len(arg1) == trimLen(arrayof(valtype), len(valtype)) {value-column-inferred-from-the-value-type}
